@@ -496,3 +496,167 @@ def add_custom_columns(rng: random.Random, form: dict, hostile: bool = False) ->
             info["hostile"].append(("control", repr(ch)))
     form["__info"] = [info]
     return form
+
+
+# ---- exotics: rarely used but accepted features, added on top of a generated form -----------------------------------
+LEGACY_HINT_TYPES = ["phone number", "number of days in last month", "number of days in last six months", "number of days in last year"]
+EXOTIC_KINDS = ["osm", "search", "legacy_hint", "choice_parent", "empty_group", "bad_choice_col", "audit", "count_expr", "calc_msgs",
+                "file_selects", "indexed_repeat"]
+
+
+def form_langs(form: dict) -> tuple[list[str], str]:
+    """languages and delimiter used by the translated headers of a form"""
+    langs, delim = [], "::"
+    for rows in form.values():
+        for r in rows:
+            for k in r:
+                for d in ("::", ":"):
+                    if k.startswith(("label" + d, "hint" + d)) and not k.startswith(("label::jr", "hint::jr")):
+                        lang = k.split(d, 1)[1]
+                        if lang and lang not in langs and not lang.startswith(":"):
+                            langs.append(lang)
+                            delim = d
+                        break
+    return langs, delim
+
+
+def _fresh(form: dict, stem: str) -> str:
+    used = {r.get("name", "").lower() for r in form["survey"]}
+    i = 9
+    while f"{stem}{i}".lower() in used:
+        i += 1
+    return f"{stem}{i}"
+
+
+def _translated(rng, row, col, langs, delim, texts, p_plain=0.3, p_each=0.75):
+    """fill col / col::lang cells; may leave some languages out"""
+    if not langs or rng.random() < p_plain:
+        row[col] = rng.choice(texts)
+        if not langs or rng.random() < 0.6:
+            return
+    for lang in langs:
+        if rng.random() < p_each:
+            row[f"{col}{delim}{lang}"] = rng.choice(texts) + " " + lang[:2]
+
+
+def add_exotics(rng: random.Random, form: dict, kinds, p=0.5) -> list[str]:
+    """Adds accepted-but-rare features in place; returns the kinds applied."""
+    survey = form["survey"]
+    langs, delim = form_langs(form)
+    applied = []
+    qnames = [r["name"] for r in survey if r.get("name") and not r["type"].startswith(("begin", "end"))]
+    for kind in kinds:
+        if rng.random() > p:
+            continue
+        if kind == "osm":
+            row = {"type": rng.choice(["osm tags9", "osm tags9", "osm"]), "name": _fresh(form, "osm")}
+            _translated(rng, row, "label", langs, delim, ["Map it", "OSM"])
+            row.setdefault("label", "Map it")
+            survey.append(row)
+            form["osm"] = [{"list_name": "tags9", "name": n, "label": lab} for n, lab in rng.sample([("building", "Building"), ("amenity", "Amenity"), ("name", "Name & <co>")], rng.randint(1, 3))]
+        elif kind == "search":
+            lst = _fresh(form, "sl")
+            ch = form.setdefault("choices", [])
+            media = rng.random() < 0.4
+            for i in range(rng.randint(1, 3)):
+                c = {"list_name": lst, "name": rng.choice(["name_col", "key_col", "c"]) + str(i)}
+                if langs and rng.random() < 0.5:
+                    c["label"] = rng.choice(["Apple", "Banana"])          # only the unsuffixed cell
+                else:
+                    _translated(rng, c, "label", langs, delim, ["Apple", "Banana", "Kiwi"], p_plain=0.4)
+                if not any(k.startswith("label") for k in c):
+                    c["label"] = "Kiwi"
+                if media and rng.random() < 0.6:
+                    c["image"] = f"s{i}.jpg"
+                ch.append(c)
+            for j in range(rng.choice([1, 1, 2])):
+                row = {"type": f"{rng.choice(['select_one', 'select_multiple'])} {lst}", "name": _fresh(form, "srch"),
+                       "appearance": rng.choice(["search('fruits')", "minimal search('fruits')", "search('fruits', 'matches', 'name_col', 'x')", "quick search('f')"])}
+                _translated(rng, row, "label", langs, delim, ["Fruit", "Pick"])
+                row.setdefault("label", "Fruit") if not any(k.startswith("label") for k in row) else None
+                survey.append(row)
+        elif kind == "legacy_hint":
+            row = {"type": rng.choice(LEGACY_HINT_TYPES), "name": _fresh(form, "lg")}
+            _translated(rng, row, "label", langs, delim, ["Days", "Phone"])
+            if not any(k.startswith("label") for k in row):
+                row["label"] = "Days"
+            if rng.random() < 0.7:
+                _translated(rng, row, "hint", langs, delim, ["my hint", "count them"])
+            survey.append(row)
+        elif kind == "choice_parent":
+            ch = form.get("choices") or []
+            lists = sorted({c["list_name"] for c in ch})
+            if lists:
+                lst = rng.choice(lists)
+                for c in ch:
+                    if c["list_name"] == lst and rng.random() < 0.8:
+                        c["parent"] = rng.choice(["wa", "or", "x y"])
+            else:
+                continue
+        elif kind == "empty_group":
+            k = rng.choice(["group", "repeat"])
+            survey.insert(rng.randint(0, len(survey)) if all(not r["type"].startswith(("begin", "end")) for r in survey) else len(survey),
+                          {"type": f"begin {k}", "name": _fresh(form, "eg"), "label": "Empty"})
+            idx = next(i for i, r in enumerate(survey) if r.get("name", "").startswith("eg") and r["type"] == f"begin {k}" and (i + 1 == len(survey) or not survey[i + 1]["type"].startswith("end") or True))
+            survey.insert(idx + 1, {"type": f"end {k}"})
+        elif kind == "bad_choice_col":
+            ch = form.get("choices") or []
+            if not ch:
+                continue
+            col = rng.choice(["my notes", "a b", " pad", "x  y"])
+            first = True
+            for c in ch:
+                if (not first or rng.random() < 0.4) and rng.random() < 0.7:
+                    c[col] = rng.choice(["check with team", "n/a", "<b>"])
+                first = False
+            if not any(col in c for c in ch):
+                ch[-1][col] = "late"
+        elif kind == "audit":
+            row = {"type": "audit", "name": "audit"}
+            if rng.random() < 0.5:
+                row["parameters"] = rng.choice(["track-changes=true", "location-priority=balanced location-min-interval=60 location-max-age=120", "identify-user=true"])
+            survey.insert(rng.randint(0, len(survey)) if all(not r["type"].startswith(("begin", "end")) for r in survey) else 0, row)
+        elif kind == "count_expr":
+            if len(qnames) < 1:
+                continue
+            a, b = rng.choice(qnames), rng.choice(qnames)
+            expr = rng.choice([f"${{{a}}} + ${{{b}}}", f"${{{a}}} * ${{{b}}}", f"${{{a}}}", f"${{{a}}} + 1", f"count(${{{a}}})", "2", f"${{{a}}}-${{{b}}}"])
+            reps = [r for r in survey if r["type"].startswith("begin") and "repeat" in r["type"]]
+            if reps and rng.random() < 0.5:
+                tgt = rng.choice(reps)
+                i0 = survey.index(tgt)
+                inside = set()
+                depth = 0
+                for r in survey[i0:]:
+                    depth += r["type"].startswith("begin") - r["type"].startswith("end")
+                    if r.get("name"):
+                        inside.add(r["name"])
+                    if depth == 0:
+                        break
+                if a in inside or b in inside:
+                    continue
+                tgt["repeat_count"] = expr
+            else:
+                nm = _fresh(form, "rc")
+                survey += [{"type": "begin repeat", "name": nm, "label": "R", "repeat_count": expr},
+                           {"type": "text", "name": _fresh(form, "rcq"), "label": "in"}, {"type": "end repeat"}]
+        elif kind == "calc_msgs":
+            row = {"type": "calculate", "name": _fresh(form, "cm"), "calculation": "1 + 1"}
+            if rng.random() < 0.7:
+                row["constraint"] = ". > 0"
+                _translated(rng, row, "constraint_message", langs, delim, ["bad total", "too low"], p_plain=0.3)
+                if qnames and not any(k.startswith("constraint_message") for k in row):
+                    row["constraint_message"] = f"bad ${{{rng.choice(qnames)}}}"
+            if rng.random() < 0.5:
+                row["required"] = "yes"
+                _translated(rng, row, "required_message", langs, delim, ["needed", "must"], p_plain=0.3)
+            survey.append(row)
+        elif kind == "file_selects":
+            stem = rng.choice(["cities", "places"])
+            exts = rng.sample([".csv", ".xml", ".geojson"], rng.choice([1, 2]))
+            for e in exts:
+                survey.append({"type": f"select_one_from_file {stem if rng.random() < 0.8 else stem + 'x'}{e}", "name": _fresh(form, "sf"), "label": "From file"})
+        else:
+            continue
+        applied.append(kind)
+    return applied
